@@ -843,4 +843,362 @@ theorem inv_pxUndelegate {s s' : St} {d c sd : Addr} {amt : Int} {e : Ext} (hI :
         rw [fL, fP, hstk, hsu]; omega
     · exact hI.pre
 
+/-! ### the two x/selfdelegation handlers -/
+
+theorem modSelfDelegate_ok {s s' : St} {d : Addr} {amt : Int} {e : Ext} (h : modSelfDelegate s d amt e = .ok s') :
+    ∃ b1 b2 b3, 0 < amt ∧ s.bank.send d (proxyOf d) fee amt = .ok b1
+      ∧ Convert.convertReverse bond fee b1 (proxyOf d) amt = .ok b2
+      ∧ b2.send (proxyOf d) stakingPool bond amt = .ok b3
+      ∧ s' = { s with bank := claim b3 (proxyOf d) e, hasProxy := fun a => if a = d then true else s.hasProxy a,
+                      stake := fun a => if a = proxyOf d then s.stake (proxyOf d) + amt else s.stake a } := by
+  simp only [modSelfDelegate] at h
+  split at h; · simp at h
+  rename_i hpos
+  split at h; · simp at h
+  obtain ⟨b1, h1, h⟩ := Bank.bind_ok h
+  obtain ⟨b2, h2, h⟩ := Bank.bind_ok h
+  obtain ⟨b3, h3, h⟩ := Bank.bind_ok h
+  split at h; · simp at h
+  simp only [Res.ok.injEq] at h
+  exact ⟨b1, b2, b3, by omega, h1, h2, h3, h.symm⟩
+
+theorem modWithdraw_ok {s s' : St} {d : Addr} {amt : Int} (h : modWithdraw s d amt = .ok s') :
+    ∃ b1 b2, 0 < amt ∧ Convert.convert bond fee s.bank (proxyOf d) amt = .ok b1
+      ∧ b1.send (proxyOf d) d fee amt = .ok b2 ∧ s' = { s with bank := b2 } := by
+  simp only [modWithdraw] at h
+  split at h; · simp at h
+  rename_i hpos
+  split at h; · simp at h
+  obtain ⟨b1, h1, h⟩ := Bank.bind_ok h
+  obtain ⟨b2, h2, h⟩ := Bank.bind_ok h
+  simp only [Res.ok.injEq] at h
+  exact ⟨b1, b2, by omega, h1, h2, h.symm⟩
+
+/-- SelfDelegate for the lockup itself: `amt` leaves the account's fee balance and ends up as stake of its proxy -/
+theorem selfDelegate_lock_bal {bk b1 b2 b3 : Bank} {amt : Int} (e : Ext)
+    (h1 : bk.send lock "plock" fee amt = .ok b1)
+    (h2 : Convert.convertReverse bond fee b1 "plock" amt = .ok b2)
+    (h3 : b2.send "plock" stakingPool bond amt = .ok b3) :
+    amt ≤ bk.bal lock fee
+    ∧ (claim b3 "plock" e).bal lock fee = bk.bal lock fee - amt
+    ∧ (∀ w, (claim b3 "plock" e).bal lock (shareOf w) = bk.bal lock (shareOf w))
+    ∧ (claim b3 "plock" e).bal "plock" bond = bk.bal "plock" bond + e.rewBond := by
+  obtain ⟨hle, f1, _, f3⟩ := C12.selfDelegate_lock_bal (bk := bk) e h1 h2 h3
+  refine ⟨hle, f1, ?_, f3⟩
+  intro w
+  have sfw : shareOf w ≠ "urise" := shareOf_ne_fee w
+  have sbw : shareOf w ≠ "uvrise" := shareOf_ne_bond w
+  obtain ⟨_, _, e1⟩ := Bank.send_ok h1
+  have hO := convReverse_other (by decide : ("plock" : Addr) ≠ Convert.moduleAcc) h2
+  obtain ⟨_, _, e3⟩ := Bank.send_ok h3
+  have o2 := hO lock (shareOf w) (by decide) (by decide)
+  subst e3
+  rw [claim_share]
+  simp [Bank.credit_bal, fee, bond, lock, stakingPool, sfw, sbw] at o2 ⊢
+  rw [o2, e1]
+  simp [Bank.credit_bal, fee, bond, lock, sfw, sbw]
+
+/-- WithdrawSelfDelegationUnbonded for the lockup itself: `amt` of the proxy's bond balance comes back as fee coins -/
+theorem withdraw_lock_bal {bk b1 b2 : Bank} {amt : Int}
+    (h1 : Convert.convert bond fee bk "plock" amt = .ok b1)
+    (h2 : b1.send "plock" lock fee amt = .ok b2) :
+    amt ≤ bk.bal "plock" bond
+    ∧ b2.bal lock fee = bk.bal lock fee + amt
+    ∧ (∀ w, b2.bal lock (shareOf w) = bk.bal lock (shareOf w))
+    ∧ b2.bal "plock" bond = bk.bal "plock" bond - amt := by
+  obtain ⟨hle, f1, _, f3⟩ := C12.withdraw_lock_bal (bk := bk) h1 h2
+  refine ⟨hle, f1, ?_, f3⟩
+  intro w
+  have sfw : shareOf w ≠ "urise" := shareOf_ne_fee w
+  have hO := convert_other (by decide : ("plock" : Addr) ≠ Convert.moduleAcc) h1
+  obtain ⟨_, _, e2⟩ := Bank.send_ok h2
+  have o2 := hO lock (shareOf w) (by decide) (by decide)
+  subst e2
+  simp [Bank.credit_bal, fee, bond, lock, sfw] at o2 ⊢
+  rw [o2]
+
+theorem inv_modSelfDelegate {s s' : St} {d : Addr} {amt : Int} {e : Ext} (hI : Inv s) (ho : d ≠ lock ∧ extOk e)
+    (h : modSelfDelegate s d amt e = .ok s') : Inv s' := by
+  obtain ⟨b1, b2, b3, hpos, h1, h2, h3, es⟩ := modSelfDelegate_ok h
+  have hp := proxyOf_other ho.1
+  rw [hp] at h1 h2 h3 es
+  subst es
+  obtain ⟨_, _, e1⟩ := Bank.send_ok h1
+  have hO := convReverse_other (by decide : ("pown" : Addr) ≠ Convert.moduleAcc) h2
+  obtain ⟨_, _, e3⟩ := Bank.send_ok h3
+  have hd : ¬ (lock = d) := fun c => ho.1 c.symm
+  refine inv_mono hI rfl rfl rfl rfl rfl rfl rfl rfl rfl rfl rfl rfl ?_ rfl ?_ ?_ ?_
+  · show (if "plock" = "pown" then s.stake "pown" + amt else s.stake "plock") = s.stake "plock"
+    simp
+  · show s.bank.bal lock fee ≤ (claim b3 "pown" e).bal lock fee
+    have o := hO lock fee (by decide) (by decide)
+    subst e3
+    rw [claim_bal]
+    simp [Bank.credit_bal, fee, bond, lock, stakingPool] at o ⊢
+    rw [o, e1]
+    simp [Bank.credit_bal, fee, bond, lock] at hd ⊢
+    simp [hd]
+  · intro w
+    show s.bank.bal lock (shareOf w) ≤ (claim b3 "pown" e).bal lock (shareOf w)
+    have sfw : shareOf w ≠ "urise" := shareOf_ne_fee w
+    have sbw : shareOf w ≠ "uvrise" := shareOf_ne_bond w
+    have o := hO lock (shareOf w) (by decide) (by decide)
+    subst e3
+    rw [claim_share]
+    simp [Bank.credit_bal, fee, bond, lock, stakingPool, sfw, sbw] at o ⊢
+    rw [o, e1]
+    simp [Bank.credit_bal, fee, bond, lock, sfw, sbw]
+  · show s.bank.bal "plock" bond ≤ (claim b3 "pown" e).bal "plock" bond
+    have o := hO "plock" bond (by decide) (by decide)
+    subst e3
+    rw [claim_bal]
+    simp [Bank.credit_bal, fee, bond, lock, stakingPool] at o ⊢
+    rw [o, e1]
+    simp [Bank.credit_bal, fee, bond, lock]
+
+theorem inv_modWithdraw {s s' : St} {d : Addr} {amt : Int} (hI : Inv s) (ho : d ≠ lock)
+    (h : modWithdraw s d amt = .ok s') : Inv s' := by
+  obtain ⟨b1, b2, hpos, h1, h2, es⟩ := modWithdraw_ok h
+  have hp := proxyOf_other ho
+  rw [hp] at h1 h2
+  subst es
+  have hO := convert_other (by decide : ("pown" : Addr) ≠ Convert.moduleAcc) h1
+  obtain ⟨_, _, e2⟩ := Bank.send_ok h2
+  subst e2
+  refine inv_mono hI rfl rfl rfl rfl rfl rfl rfl rfl rfl rfl rfl rfl rfl rfl ?_ ?_ ?_
+  · show s.bank.bal lock fee ≤ ((b1.credit "pown" fee (-amt)).credit d fee amt).bal lock fee
+    rw [← hO lock fee (by decide) (by decide)]
+    exact credit2_ge _ _ _ _ _ _ _ (by omega) (fun c => by have := c.1; revert this; decide)
+  · intro w
+    show s.bank.bal lock (shareOf w) ≤ ((b1.credit "pown" fee (-amt)).credit d fee amt).bal lock (shareOf w)
+    rw [← hO lock (shareOf w) (by decide) (by decide)]
+    exact credit2_ge _ _ _ _ _ _ _ (by omega) (fun c => by have := c.1; revert this; decide)
+  · show s.bank.bal "plock" bond ≤ ((b1.credit "pown" fee (-amt)).credit d fee amt).bal "plock" bond
+    rw [← hO "plock" bond (by decide) (by decide)]
+    simp [Bank.credit_bal, fee, bond]
+
+/-! ### the self-delegatable lockup's own handlers -/
+
+theorem inv_sdSelfDelegate {s s' : St} {c sd : Addr} {amt : Int} {e : Ext} (hI : Inv s) (he : extOk e)
+    (h : doSdSelfDelegate s c sd amt e = .ok s') : Inv s' := by
+  simp only [doSdSelfDelegate] at h
+  split at h; · simp at h
+  rename_i hcv
+  split at h; · simp at h
+  split at h; · simp at h
+  rename_i hneg
+  split at h; · simp at h
+  obtain ⟨locked, hl, h⟩ := Bank.bind_ok h
+  split at h; · simp at h
+  rename_i hb
+  split at h; · simp at h
+  rename_i dv df htd
+  obtain ⟨b1, b2, b3, hpos, h1, h2, h3, es⟩ := modSelfDelegate_ok h
+  rw [proxyOf_lock] at h1 h2 h3 es
+  subst es
+  have ha : 0 ≤ amt := by omega
+  obtain ⟨x, x0, xa, xm, xf, edv, edf, anz, able⟩ := trackDel_facts ha htd
+  have hv : s.variant = .sd := by
+    simp only [Bool.or_eq_true, Bool.not_eq_true', decide_eq_true_eq, not_or] at hcv
+    have := hcv.2; simpa using this
+  have hcr : s.created = true := by
+    simp only [Bool.or_eq_true, Bool.not_eq_true', decide_eq_true_eq, not_or] at hcv
+    have := hcv.1; simpa using this
+  have hl' : lockedT s s.now = .ok locked := hl
+  have hr := lockedT_range hI hl'
+  obtain ⟨hle, fL, fS, fP⟩ := selfDelegate_lock_bal (bk := s.bank) e h1 h2 h3
+  have key : ∀ t l, s.now ≤ t → lockedT s t = .ok l → l ≤ locked := fun t l ht hlt => lockedT_antitone hI ht hl' hlt
+  have fK : (if "plock" = "plock" then s.stake "plock" + amt else s.stake "plock") = s.stake "plock" + amt := by simp
+  obtain ⟨hrf, hrb⟩ := he
+  constructor
+  · exact hI.ol0
+  · exact hI.ut0
+  · show 0 ≤ dv; have := hI.dv0; omega
+  · show 0 ≤ df; have := hI.df0; omega
+  · show 0 ≤ (claim b3 "plock" e).bal lock fee; rw [fL]; omega
+  · intro w; show 0 ≤ (claim b3 "plock" e).bal lock (shareOf w); rw [fS]; exact hI.bS0 w
+  · show 0 ≤ (claim b3 "plock" e).bal "plock" bond; rw [fP]; have := hI.bP0; omega
+  · show 0 ≤ (if "plock" = "plock" then s.stake "plock" + amt else s.stake "plock")
+    rw [fK]; have := hI.st0; omega
+  · exact hI.nodup
+  · exact hI.ubd0
+  · exact hI.sc0
+  · intro hc t l ht hlt
+    have h1 := hI.cover hc t l ht hlt
+    have h2 := key t l ht hlt
+    show l - dv ≤ (claim b3 "plock" e).bal lock fee
+    rw [fL, edv]
+    rcases xf with hx | hx <;> omega
+  · have := hI.tracked
+    unfold actualDelegated at this ⊢
+    simp only [hv] at this ⊢
+    show dv + df ≤ (if "plock" = "plock" then s.stake "plock" + amt else s.stake "plock") + sumUnb "plock" s.ubds
+        + (claim b3 "plock" e).bal "plock" bond
+    rw [fK, fP]; omega
+  · intro hnv _
+    have : s.variant = .nv := hnv
+    rw [hv] at this; exact absurd this (by decide)
+  · exact hI.scHead
+  · exact hI.headUt
+  · intro hc t l ht hlt
+    have := hI.cust hc t l ht hlt
+    unfold custody at this ⊢
+    simp only [hv] at this ⊢
+    show l ≤ (claim b3 "plock" e).bal lock fee + (claim b3 "plock" e).bal "plock" bond
+        + (if "plock" = "plock" then s.stake "plock" + amt else s.stake "plock") + sumUnb "plock" s.ubds
+    rw [fL, fP, fK]; omega
+  · intro hc
+    have hc' : s.created = false := hc
+    rw [hcr] at hc'; simp at hc'
+
+theorem inv_sdWithdraw {s s' : St} {c sd : Addr} {amt : Int} (hI : Inv s)
+    (h : doSdWithdraw s c sd amt = .ok s') : Inv s' := by
+  simp only [doSdWithdraw] at h
+  split at h; · simp at h
+  rename_i hcv
+  split at h; · simp at h
+  split at h; · simp at h
+  rename_i hneg
+  split at h; · simp at h
+  split at h; · simp at h
+  rename_i dv df htu
+  obtain ⟨b1, b2, hpos, h1, h2, es⟩ := modWithdraw_ok h
+  rw [proxyOf_lock] at h1 h2
+  subst es
+  have ha : 0 ≤ amt := by omega
+  obtain ⟨x, y, x0, xdf, y0, ydv, xya, hex, edv, edf, _⟩ := trackUndel_facts hI.dv0 hI.df0 ha htu
+  have hv : s.variant = .sd := by
+    simp only [Bool.or_eq_true, Bool.not_eq_true', decide_eq_true_eq, not_or] at hcv
+    have := hcv.2; simpa using this
+  have hcr : s.created = true := by
+    simp only [Bool.or_eq_true, Bool.not_eq_true', decide_eq_true_eq, not_or] at hcv
+    have := hcv.1; simpa using this
+  obtain ⟨hle, fL, fS, fP⟩ := withdraw_lock_bal (bk := s.bank) h1 h2
+  have hsu := sumUnb_nonneg "plock" s.ubds (ubdNonneg hI)
+  constructor
+  · exact hI.ol0
+  · exact hI.ut0
+  · show 0 ≤ dv; omega
+  · show 0 ≤ df; omega
+  · show 0 ≤ b2.bal lock fee; rw [fL]; have := hI.bL0; omega
+  · intro w; show 0 ≤ b2.bal lock (shareOf w); rw [fS]; exact hI.bS0 w
+  · show 0 ≤ b2.bal "plock" bond; rw [fP]; omega
+  · exact hI.st0
+  · exact hI.nodup
+  · exact hI.ubd0
+  · exact hI.sc0
+  · intro hc t l ht hlt
+    have := hI.cover hc t l ht hlt
+    show l - dv ≤ b2.bal lock fee
+    rw [fL, edv]; omega
+  · have := hI.tracked
+    have := hI.st0
+    unfold actualDelegated at *
+    simp only [hv] at *
+    show dv + df ≤ s.stake "plock" + sumUnb "plock" s.ubds + b2.bal "plock" bond
+    rw [fP, edv, edf]
+    rcases hex with hx | ⟨hx, hy⟩ <;> omega
+  · intro hnv _
+    have : s.variant = .nv := hnv
+    rw [hv] at this; exact absurd this (by decide)
+  · exact hI.scHead
+  · exact hI.headUt
+  · intro hc t l ht hlt
+    have := hI.cust hc t l ht hlt
+    unfold custody at this ⊢
+    simp only [hv] at this ⊢
+    show l ≤ b2.bal lock fee + b2.bal "plock" bond + s.stake "plock" + sumUnb "plock" s.ubds
+    rw [fL, fP]; omega
+  · intro hc
+    have hc' : s.created = false := hc
+    rw [hcr] at hc'; simp at hc'
+
+/-! ### all fourteen operations, all histories -/
+
+theorem inv_halted {s : St} (hI : Inv s) : Inv { s with halted := true } :=
+  ⟨hI.ol0, hI.ut0, hI.dv0, hI.df0, hI.bL0, hI.bS0, hI.bP0, hI.st0, hI.nodup, hI.ubd0, hI.sc0, hI.cover, hI.tracked, hI.liveNv,
+   hI.scHead, hI.headUt, hI.cust, hI.pre⟩
+
+/-- one step of the multi-validator model preserves the invariant, whatever the operation -/
+theorem inv_step {s : St} {op : Op} (hI : Inv s) (ho : OpOk op) : Inv (step s op).1 := by
+  unfold step
+  by_cases hh : s.halted
+  · simp [hh]; exact hI
+  · simp only [hh, Bool.false_eq_true, if_false]
+    cases ha : LockupMV.apply s op with
+    | err c => cases op <;> first | exact hI | exact inv_halted hI
+    | panic k => exact hI
+    | ok s' =>
+      show Inv s'
+      cases op <;> simp only [OpOk] at ho <;> simp only [LockupMV.apply] at ha
+      · exact inv_init hI ho ha
+      · exact inv_deposit hI ho (by simpa [LockupMV.apply] using ha)
+      · exact inv_block hI ha
+      · exact inv_send hI ha
+      · exact inv_nvDelegate hI ho ha
+      · exact inv_nvUndelegate hI ho ha
+      · exact inv_nvWithdrawReward hI ho ha
+      · exact inv_sdSelfDelegate hI ho ha
+      · exact inv_sdWithdraw hI ha
+      · exact inv_pxUndelegate hI ho ha
+      · exact inv_pxWithdrawReward hI ho ha
+      · exact inv_pxSend hI ha
+      · exact inv_modSelfDelegate hI ho ha
+      · exact inv_modWithdraw hI ho ha
+
+/-- states from which histories start: any validator set (no duplicates), no lockup account yet, nothing tracked, nothing
+    recorded or unbonding, no negative balance -/
+def Genesis (s : St) : Prop :=
+  s.created = false ∧ s.halted = false ∧ s.DV = 0 ∧ s.DF = 0 ∧ s.OL = 0 ∧ s.entries = [] ∧ s.ubds = [] ∧ s.scUnb = []
+  ∧ 0 ≤ s.ut ∧ 0 ≤ s.bank.bal lock fee ∧ (∀ v, 0 ≤ s.bank.bal lock (shareOf v)) ∧ 0 ≤ s.bank.bal "plock" bond
+  ∧ 0 ≤ s.stake "plock" ∧ s.vals.Nodup
+
+theorem inv_genesis {s : St} (g : Genesis s) : Inv s := by
+  obtain ⟨g1, g2, g3, g4, g5, g6, g7, g8, g9, g10, g11, g12, g13, g14⟩ := g
+  have hsh := sumShares_nonneg s.bank s.vals g11
+  constructor
+  · omega
+  · exact g9
+  · omega
+  · omega
+  · exact g10
+  · exact g11
+  · exact g12
+  · exact g13
+  · exact g14
+  · intro u hu; rw [g7] at hu; simp at hu
+  · intro u hu; rw [g8] at hu; simp at hu
+  · intro hc; rw [g1] at hc; simp at hc
+  · unfold actualDelegated; rw [g3, g4, g6, g7]; cases s.variant <;> simp [totalEntries, sumUnb] <;> omega
+  · intro _ _; rw [g3, g4, g8]; simp [sumUnb]; exact hsh
+  · intro u hu; rw [g8] at hu; simp at hu
+  · intro p hp; rw [g6] at hp; simp at hp
+  · intro hc; rw [g1] at hc; simp at hc
+  · intro _; exact g8
+
+/-- **inv_run** — the invariant holds after every operation list: any length, any number of validators, any interleaving of
+    delegations / undelegations to and from any of them with sends, deposits, proxy and module messages and block times -/
+theorem inv_run (ops : List Op) : ∀ (s : St), Inv s → (∀ op ∈ ops, OpOk op) → Inv (run s ops) := by
+  induction ops with
+  | nil => intro s hI _; exact hI
+  | cons op r ih =>
+    intro s hI hall
+    exact ih (step s op).1 (inv_step hI (hall op (by simp))) (fun o ho => hall o (by simp [ho]))
+
+/-- **outflow_bound** (several validators) — in every reachable state, at the current block time and at any later one, the
+    custody set (the account's fee balance, its share tokens of ALL validators / its proxy's stake and bond balance, and the
+    unbondings on their way back) is worth at least what the schedule still keeps locked -/
+theorem outflow_bound (s0 : St) (ops : List Op) (g : Genesis s0) (hops : ∀ op ∈ ops, OpOk op)
+    (hc : (run s0 ops).created = true) (t l : Int) (ht : (run s0 ops).now ≤ t) (hl : lockedT (run s0 ops) t = .ok l) :
+    l ≤ custody (run s0 ops) :=
+  (inv_run ops s0 (inv_genesis g) hops).cust hc t l ht hl
+
+/-- **tracked_le_actual** (several validators) — DV + DF never exceed what is delegated, unbonding, or unbonded and not yet
+    tracked back (nv: share tokens of all validators + the recorded entries of all validators; sd: proxy stake + unbondings +
+    bond balance) -/
+theorem tracked_le_actual (s0 : St) (ops : List Op) (g : Genesis s0) (hops : ∀ op ∈ ops, OpOk op) :
+    0 ≤ (run s0 ops).DV ∧ 0 ≤ (run s0 ops).DF ∧ (run s0 ops).DV + (run s0 ops).DF ≤ actualDelegated (run s0 ops) :=
+  let h := inv_run ops s0 (inv_genesis g) hops
+  ⟨h.dv0, h.df0, h.tracked⟩
+
 end Sunrise.C12MV
